@@ -102,11 +102,33 @@ MAPP_SPEC = {'id': 'mapp', 'models': [{'name': 'Book', 'table': 'mapp_book', 'un
     {'name': 'pages', 'type': 'IntegerField', 'attrs': {'null': True}, 'related': None}]}]}
 
 
-def setup(routers=(), migration_app=False):
+# an app whose label is not its package name (AppConfig.label): package `lpkg`, label `lapp`
+PKG_OF = {}
+INSTALLED_AS = {}
+
+
+def pkg_of(label):
+    return PKG_OF.get(label, label)
+
+
+def setup(routers=(), migration_app=False, custom_label_app=False):
     global _ready
     if _ready:
         return
     d = dj.scratch_dir()
+    if custom_label_app:
+        pkg = os.path.join(d, 'lpkg')
+        os.makedirs(os.path.join(pkg, 'evolutions'), exist_ok=True)
+        for fn in ('__init__.py', 'models.py'):
+            open(os.path.join(pkg, fn), 'w').close()
+        with open(os.path.join(pkg, 'apps.py'), 'w') as f:
+            f.write("from django.apps import AppConfig\n\n\nclass LConfig(AppConfig):\n    name = 'lpkg'\n"
+                    "    label = 'lapp'\n")
+        with open(os.path.join(pkg, 'evolutions', '__init__.py'), 'w') as f:
+            f.write('SEQUENCE = []\n')
+        EXTRA.append('lapp')
+        PKG_OF['lapp'] = 'lpkg'
+        INSTALLED_AS['lapp'] = 'lpkg.apps.LConfig'
     if migration_app:
         pkg = os.path.join(d, 'mapp')
         os.makedirs(os.path.join(pkg, 'migrations'), exist_ok=True)
@@ -126,7 +148,7 @@ def setup(routers=(), migration_app=False):
     with open(os.path.join(d, 'vrouter.py'), 'w') as f:
         f.write(ROUTER_SRC)
     sys.path.insert(0, d)
-    dj.setup(extra_apps=APPS + EXTRA, routers=['vrouter.Router'] + list(routers))
+    dj.setup(extra_apps=[INSTALLED_AS.get(a, a) for a in APPS + EXTRA], routers=['vrouter.Router'] + list(routers))
     _ready = True
 
 
@@ -147,7 +169,7 @@ def install_models(spec):
         for a in spec['apps']:
             out[a['id']] = []
             for m in a['models']:
-                attrs = {'__module__': '%s.models' % a['id']}
+                attrs = {'__module__': '%s.models' % pkg_of(a['id'])}
                 for f in m['fields']:
                     cls = sigs.ftype_cls(f['type'])
                     kw = dict(f['attrs'])
@@ -178,6 +200,7 @@ def set_evolutions(label, evolutions, app_deps=None):
     """evolutions: list of {'label', 'mutations': [real mutation objects], optional
     'after_evolutions'/'before_evolutions'/'after_migrations'/'before_migrations'} — installed
     as modules `<label>.evolutions.<evolution label>` exactly where the package looks for them."""
+    label = pkg_of(label)
     mod = sys.modules.get('%s.evolutions' % label)
     if mod is None:
         import importlib
@@ -218,7 +241,7 @@ def set_evolutions(label, evolutions, app_deps=None):
 
 
 def clear_evolutions():
-    for label in APPS:
+    for label in APPS + [a for a in EXTRA if a in PKG_OF]:
         set_evolutions(label, [])
 
 
